@@ -83,7 +83,24 @@ def main():
                         os.environ["JTIOSUE_QUBOVERT_VERIF_TRACE_MAX"] = str(c["trace_max"])
                 else:
                     os.environ.pop("JTIOSUE_QUBOVERT_VERIF_TRACE", None)
-                model = classes[c["kind"]](d) if c["kind"] != "dict" else dict(d)
+                if c.get("warm"):
+                    # history: the SAME object was annealed before with other coefficients (same keys), then edited in place
+                    pre = {k: -2 * v for k, v in d.items()}
+                    model = classes[c["kind"]](pre) if c["kind"] != "dict" else dict(pre)
+                    saved = os.environ.pop("JTIOSUE_QUBOVERT_VERIF_TRACE", None)
+                    try:
+                        with warnings.catch_warnings():
+                            warnings.simplefilter("ignore")
+                            fns[c["fn"]](model, **kw)
+                    except Exception:          # noqa  (the judged call reports what it raises)
+                        pass
+                    if saved is not None:
+                        os.environ["JTIOSUE_QUBOVERT_VERIF_TRACE"] = saved
+                    captured.clear()
+                    for k, v in d.items():
+                        model[k] = v
+                else:
+                    model = classes[c["kind"]](d) if c["kind"] != "dict" else dict(d)
                 for pk, pv in c.get("post", []):          # edits after construction (e.g. to leave a stale variable)
                     model[tuple(L(x) for x in pk)] = pv
                 if c.get("remap") and hasattr(model, "set_mapping"):
